@@ -354,6 +354,8 @@ class Findings:
     def __init__(self):
         p = os.path.join(ROOT, "known_findings.json")
         self.entries = json.load(open(p))["findings"] if os.path.exists(p) else []
+        for q in sorted(glob.glob(os.path.join(ROOT, "findings", "*.json"))):  # per-property staging files
+            self.entries += json.load(open(q))["findings"]
         self.seen = {}
 
     def known(self, prop):
